@@ -46,9 +46,7 @@ type stmtSliceContainerMatcher struct {
 func (c *matcherCompiler) compilePGoStmtList(slist *pgo.StmtList) Matcher {
 	var list []ast.Stmt
 	if len(slist.List) > 0 {
-		list = append(list, dotsStmt(c.patchStart))
-		list = append(list, slist.List...)
-		list = append(list, dotsStmt(c.patchEnd))
+		list = withImplicitDots(c.fset, slist.List, c.patchStart, c.patchEnd)
 	}
 	return stmtSliceContainerMatcher{
 		Stmts: c.compile(reflect.ValueOf(list)),
@@ -132,9 +130,7 @@ type stmtSliceContainerReplacer struct {
 func (c *replacerCompiler) compilePGoStmtList(slist *pgo.StmtList) Replacer {
 	var list []ast.Stmt
 	if len(slist.List) > 0 {
-		list = append(list, dotsStmt(c.patchStart))
-		list = append(list, slist.List...)
-		list = append(list, dotsStmt(c.patchEnd))
+		list = withImplicitDots(c.fset, slist.List, c.patchStart, c.patchEnd)
 	}
 	return stmtSliceContainerReplacer{
 		Stmts: c.compile(reflect.ValueOf(list)),
@@ -199,4 +195,34 @@ type stmtListField struct {
 
 func dotsStmt(pos token.Pos) ast.Stmt {
 	return &ast.ExprStmt{X: &pgo.Dots{Dots: pos}}
+}
+
+// withImplicitDots surrounds the statements of a patch with the "..." that
+// stand for whatever precedes and follows them in a block.
+//
+// Elisions are told apart by the line and column they are at, and the leading
+// one is placed at the very start of the patch. A patch whose first line is a
+// "..." in the first column has one there already: a second one at the same
+// place would be mistaken for it, and the statements it stands for would be
+// lost.
+func withImplicitDots(fset *token.FileSet, stmts []ast.Stmt, start, end token.Pos) []ast.Stmt {
+	list := make([]ast.Stmt, 0, len(stmts)+2)
+	if !isDotsStmtAt(fset, stmts[0], start) {
+		list = append(list, dotsStmt(start))
+	}
+	list = append(list, stmts...)
+	return append(list, dotsStmt(end))
+}
+
+func isDotsStmtAt(fset *token.FileSet, s ast.Stmt, pos token.Pos) bool {
+	es, ok := s.(*ast.ExprStmt)
+	if !ok {
+		return false
+	}
+	d, ok := es.X.(*pgo.Dots)
+	if !ok {
+		return false
+	}
+	got, want := fset.Position(d.Pos()), fset.Position(pos)
+	return got.Line == want.Line && got.Column == want.Column
 }
